@@ -3,6 +3,7 @@
 PROPS = {
     "C07": {
         "run": "^TestC07",
+        "fuzz": [('FuzzC07', 90)],
         "shards": 12,
         "rule": "pairs of strictly increasing innovation lists built from a pattern language (mixed / identical / prefix / "
                 "interleaved / disjoint blocks / excess tail / single gene / gene-less) with independent mutation numbers and "
@@ -21,6 +22,7 @@ PROPS = {
     },
     "C18": {
         "run": "^TestC18",
+        "fuzz": [('FuzzC18Scalar', 60), ('FuzzC18Module', 30)],
         "shards": 12,
         "technique": "property-based testing (rapid): generated (type, float64) inputs biased to breakpoints/zeros/extremes against closed-form reference functions, range and monotonicity relations, name/code bijection",
         "level_text": "Generated-input search over all 23 registered types: scalar inputs up to |x| = 1e300 incl. breakpoints and their float neighbours, ordered pairs for monotonicity, "
@@ -33,6 +35,7 @@ PROPS = {
     },
     "C19": {
         "run": "^TestC19",
+        "fuzz": [('FuzzC19Series', 60), ('FuzzC19Exp', 60)],
         "shards": 12,
         "technique": "property-based testing (rapid): generated float series in every order against textbook / empirical-quantile references computed on a sorted copy; generated experiment records against aggregates recomputed from the generations",
         "level_text": "Generated-input search: series of length 0-400 (duplicates, wide range, sorted / reversed / shuffled) for the ten descriptive statistics incl. panics and receiver mutation; "
@@ -45,6 +48,7 @@ PROPS = {
     },
     "C06": {
         "run": "^TestC06",
+        "fuzz": [('FuzzC06Dup', 60)],
         "shards": 12,
         "technique": "property-based testing (rapid): generated genomes (disabled/recurrent genes, nil traits, modules) duplicated and compared field by field with a value snapshot; pointer-disjointness; generated mutation sequences on one side with the other side's snapshot as oracle; spawn relation",
         "level_text": "Generated-input search over hand-built well-formed genomes incl. modular ones: equality of every genetic field, no shared mutable object (pointer identity over traits, nodes, links, genes, modules, backing arrays), "
@@ -57,6 +61,7 @@ PROPS = {
     },
     "C04": {
         "run": "^TestC04",
+        "fuzz": [('FuzzC04', 90)],
         "shards": 12,
         "technique": "property-based testing (rapid): parent pairs constructed from a common gene table (controlled alignment patterns, ties, disabled genes) x 3 crossover methods x seeds, checked gene by gene against the inheritance relation; parents' snapshots as oracle for 'unmodified'",
         "level_text": "Generated-input search: pairs of well-formed genomes of one lineage (shared start genes, splits, links re-invented under new numbers), all fitness orderings incl. the three kinds of tie, "
@@ -71,6 +76,7 @@ PROPS = {
     },
     "C11": {
         "run": "^TestC11",
+        "fuzz": [('FuzzC11', 90)],
         "shards": 12,
         "technique": "property-based testing (rapid): generated genomes (enabled/disabled, recurrent, self-loop genes, modules incl. overlapping ones) expressed as networks and compared with a structural model; exhaustive ordered-pair queries of the graph view per genome against an adjacency model",
         "level_text": "Generated-input search over hand-built well-formed genomes; per genome the network structure is compared positionally / as multisets with the enabled part of the genome and every ordered pair over node ids, control ids and absent ids "
@@ -82,6 +88,7 @@ PROPS = {
     },
     "C12": {
         "run": "^TestC12",
+        "fuzz": [('FuzzC12', 90)],
         "shards": 12,
         "technique": "property-based testing (rapid): generated acyclic networks (all scalar activations, 0-3 bias nodes, skip links, outputs feeding hidden nodes) x input vectors x step counts; differential against an independent topological evaluator with a propagated rounding bound",
         "level_text": "Generated-input search: each DAG is evaluated by the standard solver (forward steps, and recursive steps when a hidden node exists) and by three fresh fast solvers (forward, recursive, relax) and compared with the harness's own "
@@ -94,6 +101,7 @@ PROPS = {
     },
     "C13": {
         "run": "^TestC13",
+        "fuzz": [('FuzzC13', 90)],
         "shards": 12,
         "technique": "property-based testing (rapid): generated networks (cyclic with self-loops and parallel links, acyclic, modular) x generated operation histories x flush x operation sequences; lock-step differential against a freshly built instance with bit-equal outputs",
         "level_text": "Generated-input search with a differential oracle: instance A runs a history of 0-10 operations, is flushed and then runs a sequence of 1-10 operations in lock step with a fresh instance B; after every step the reported flags / errors and the outputs (bit patterns) must agree. "
@@ -106,6 +114,7 @@ PROPS = {
     },
     "C14": {
         "run": "^TestC14",
+        "fuzz": [('FuzzC14', 90)],
         "shards": 12,
         "technique": "property-based testing (rapid): generated DAGs and cyclic graphs with hidden nodes; depth compared with a dynamic-programming longest path; cap relation on fresh instances; generated query sequences on one instance for idempotence",
         "level_text": "Generated-input search: for acyclic graphs the reported depth is compared with an independent DP longest path; for cyclic graphs range and termination; for every cap 1..D+2 the capped result on a fresh instance; "
@@ -117,6 +126,7 @@ PROPS = {
     },
     "C15": {
         "run": "^TestC15",
+        "fuzz": [('FuzzC15Genome', 90)],
         "shards": 12,
         "technique": "property-based testing (rapid): write->read round trips of generated genomes (plain, YAML with modules), organisms (binary), populations (genome by genome and by species), fast-solver model files (differential outputs) and experiment records, compared under the harness's own genetic equality",
         "level_text": "Generated-input search with round-trip oracles: arbitrary float64 weights and trait parameters, all 20 scalar activation names, nil traits, disabled and recurrent genes, modules in YAML; populations of a common lineage through Population.Write / WriteBySpecies and ReadPopulation; "
@@ -129,6 +139,7 @@ PROPS = {
     },
     "C20": {
         "run": "^TestC20",
+        "fuzz": [('FuzzC20', 90)],
         "shards": 12,
         "technique": "property-based testing (rapid) with fault injection: generated (trials, generations, solved pattern, fault point, observer on/off, executor) scenarios; the recorded call trace of evaluator and observer is compared with a protocol model",
         "level_text": "Generated-input search over run scenarios incl. injected evaluator errors and context cancellation at every (trial, generation) point: the harness's evaluator/observer record every call with the identity of the population and its organisms; "
@@ -141,6 +152,7 @@ PROPS = {
     },
     "C01": {
         "run": "^TestC01",
+        "fuzz": [('FuzzC01History', 90)],
         "shards": 12,
         "timeout_quick": 1200,
         "technique": "stateful property-based testing (rapid): data-driven operator state machine over a genome pool with an innovation context (duplicate, 10 mutators, 3 crossovers, end-of-generation) with the well-formedness predicate as invariant after every action; generated population histories (3 constructors x options x fitness programs x both executors) with the predicate on every organism after every turnover",
@@ -154,6 +166,7 @@ PROPS = {
     },
     "C05": {
         "run": "^TestC05",
+        "fuzz": [('FuzzC05', 90)],
         "shards": 12,
         "technique": "stateful property-based testing (rapid): the operator state machine of C01 with an exact before/after delta oracle per mutator call (value snapshots of the genome and the boolean result)",
         "level_text": "Model-based generation: subject genomes are pool members reached by generated operator histories; the innovation record is empty, matching (another member performed the same mutation earlier in the generation) or unrelated; "
@@ -177,6 +190,7 @@ PROPS = {
     },
     "C03": {
         "run": "^TestC03",
+        "fuzz": [('FuzzC03History', 90)],
         "shards": 12,
         "timeout_quick": 1200,
         "technique": "stateful property-based testing (rapid): generated population histories with high structural-mutation rates under the sequential executor; an innovation ledger kept by the harness over the whole history is the oracle",
@@ -202,6 +216,7 @@ PROPS = {
     },
     "C08": {
         "run": "^TestC08",
+        "fuzz": [('FuzzC08Direct', 90)],
         "shards": 12,
         "timeout_quick": 1200,
         "technique": "property-based testing (rapid): generated lineages arriving in generated orders and batches into a population, thresholds placed between observed pairwise distances; the assignment rule is replayed with the reference distance (decision-robust oracle); constructor and epoch paths checked through the public API",
